@@ -3,6 +3,7 @@
 package syncx
 
 import (
+	"context"
 	"encoding/json"
 	"errors"
 	"fmt"
@@ -589,6 +590,12 @@ func vRun(c *vCase) any {
 						panic("verif: fn panics")
 					}
 					env.log(th.id, kEnd, 0, op.A, op.C, 0)
+					if op.C == 901 { // the leader's fn fails with an error wrapping context.Canceled / DeadlineExceeded
+						return nil, fmt.Errorf("verif fetch: %w", context.Canceled)
+					}
+					if op.C == 902 {
+						return nil, fmt.Errorf("verif fetch: %w", context.DeadlineExceeded)
+					}
 					return op.C, nil
 				}
 				key := "k" + strconv.Itoa(op.A)
@@ -600,10 +607,11 @@ func vRun(c *vCase) any {
 					}
 				}()
 				var v any
+				var ferr error
 				flag := 0
 				if op.Code == 0 {
 					var fresh bool
-					v, fresh, _ = g.DoEx(key, fn)
+					v, fresh, ferr = g.DoEx(key, fn)
 					if fresh {
 						flag = 1
 					}
@@ -611,10 +619,19 @@ func vRun(c *vCase) any {
 						flag = 7 // DoEx's fresh flag disagrees with what happened
 					}
 				} else {
-					v, _ = g.Do(key, fn)
+					v, ferr = g.Do(key, fn)
 					flag = executed
 				}
 				val, _ := v.(int)
+				switch { // the shared error is reported by what it wraps
+				case ferr == nil:
+				case errors.Is(ferr, context.Canceled):
+					val = 901
+				case errors.Is(ferr, context.DeadlineExceeded):
+					val = 902
+				default:
+					val = 903
+				}
 				env.log(th.id, kRet, 0, op.A, val, flag)
 				return [2]int{flag, val}
 			}
@@ -978,13 +995,28 @@ func vRun(c *vCase) any {
 			drain = func() bool { do(1000, vOp{Code: 2}); return true }
 		case "bar":
 			var b Barrier
-			exec = func(th *vThread, op vOp) [2]int {
+			exec = func(th *vThread, op vOp) (res [2]int) {
 				env.log(th.id, kInv, 1, 0, 0, 0)
-				b.Guard(func() {
+				defer func() {
+					if p := recover(); p != nil {
+						env.log(th.id, kRet, 1, 0, 0, 2)
+						res = [2]int{2, 0}
+					}
+				}()
+				guarded := func() {
 					env.log(th.id, kBegin, 1, 0, 0, 0)
 					env.waitGate(th, op.B)
+					if op.C == 0 { // the guarded function panics; the caller recovers
+						env.log(th.id, kEnd, 1, 0, 0, 1)
+						panic("verif: guarded fn panics")
+					}
 					env.log(th.id, kEnd, 1, 0, op.C, 0)
-				})
+				}
+				if op.Code == 1 {
+					Guard(&b.lock, guarded) // the package-level Guard on the same lock
+				} else {
+					b.Guard(guarded)
+				}
 				env.log(th.id, kRet, 1, 0, op.C, 1)
 				return [2]int{1, op.C}
 			}
